@@ -16,24 +16,45 @@ static SPxMemoryException verif_exc;
 
 typedef long ptrdiff_t;
 extern "C" {
-void* malloc(size_t);
+void* verif_malloc(size_t n);                  /* contract in contract.c */
 void free(void*);
-void* memcpy(void*, const void*, size_t);
 void* verif_realloc(void* p, size_t n);       /* ISO C contract in contract.c */
+#ifdef MEMCPY_LOOP
+void* verif_memcpy(void* dst, const void* src, size_t n)
+{
+   __CPROVER_assert(n % sizeof(long long) == 0, "memcpy model: whole 8-byte cells");
+   for(size_t i = 0; i < n / sizeof(long long); ++i)
+      ((long long*)dst)[i] = ((const long long*)src)[i];
+   return dst;
+}
+#else
+void* verif_memcpy(void* dst, const void* src, size_t n);   /* ISO C contract in contract.c */
+#endif
 }
 #define realloc(p, n) verif_realloc((p), (n))
+#define malloc(n) verif_malloc((n))
+#define memcpy(d, s, n) verif_memcpy((d), (s), (n))
+
+/* reMax returns `reinterpret_cast<char*>(theitem) - reinterpret_cast<char*>(old_theitem)`: the distance between the new and the
+ * released block.  ISO C++ leaves the difference of pointers into different allocations undefined (CBMC: "same object
+ * violation"); the code relies on a flat address space.  Modelled as such: reinterpret_cast<char*>(p) yields the integer
+ * address of p, and the difference is an integer difference (listed under "trusted"). */
+struct VerifAddr { long v; };
+inline ptrdiff_t operator-(const VerifAddr& a, const VerifAddr& b) { return a.v - b.v; }
+template <class TO> inline VerifAddr verif_addr_cast(const void* p) { VerifAddr a; a.v = (long)p; return a; }
+#define reinterpret_cast verif_addr_cast
 
 template <class PT> inline void spx_alloc(PT& p, int n = 1)
 {
    if(n == 0) n = 1;
-   p = reinterpret_cast<PT>(malloc(sizeof(*p) * (unsigned int) n));
+   p = (PT)(malloc(sizeof(*p) * (unsigned int) n));
    __CPROVER_assume(p != 0);          /* the real one throws SPxMemoryException */
 }
 template <class PT> inline void spx_realloc(PT& p, int n)
 {
    PT pp;
    if(n == 0) n = 1;
-   pp = reinterpret_cast<PT>(realloc(p, sizeof(*p) * (unsigned int) n));
+   pp = (PT)(realloc(p, sizeof(*p) * (unsigned int) n));
    __CPROVER_assume(pp != 0);         /* the real one throws SPxMemoryException */
    p = pp;
 }
@@ -106,15 +127,15 @@ struct DataSetHost
 #define PUTSET(s) *themax = s.themax; *thesize = s.thesize; *thenum = s.thenum; *firstfree = s.firstfree; gp_key = (long long*)s.thekey
 
 #ifdef INST_reMax
-/* returns the (possibly moved) item array; *delta = reMax's return value, *delta_ok = it equals the byte distance old -> new */
+/* returns the (possibly moved) item array; *delta = reMax's return value */
 extern "C" long long* w_reMax(long long* item, long long* key, int* themax, int* thesize, int* thenum, int* firstfree, int newmax,
-                              int usedefault, const int* rank)
+                              int usedefault, long* delta, const int* rank)
 {
    MKSET(s);
    if(usedefault)
-      s.reMax();
+      *delta = s.reMax();
    else
-      s.reMax(newmax);
+      *delta = s.reMax(newmax);
    PUTSET(s);
    return (long long*)s.theitem;
 }
